@@ -395,6 +395,13 @@ func (m *msi) sendNewL3MSICommand(id int, alignedAddr comp.AlignedAddress, reque
 		m.commands[cmdRequest] = existingCommand
 		return existingCommand
 	} else {
+		// The L3 is shared: another core may already have asked for the same
+		// line to leave it, and a line can leave only once
+		for req, existingCommand := range m.commands {
+			if req.alignedAddr == alignedAddr && req.request == request {
+				return existingCommand
+			}
+		}
 		newCommand := &msiCommandInfo{
 			callback: func() {
 				delete(m.commands, cmdRequest)
